@@ -239,6 +239,7 @@ func refCall(t *rTx, spent []rOut, k *Call) (defined bool, digest string, pre []
 	return
 }
 
+var nilChecked int
 var signKey = mustBig("5c0de5c0de5c0de5c0de5c0de5c0de5c0de5c0de5c0de5c0de5c0de5c0de5c0d")
 
 // schnorrAccepts: does the real CheckSchnorrSignature accept a signature (made by the independent
@@ -275,7 +276,9 @@ func schnorrAccepts(c *Case, k *Call) (accepted bool, digestUsed string) {
 func runCase(c *Case) {
 	t, spent := c.ref()
 	o.MustAsk(c.oracleLine())
+	r.Hit("shape:ins=" + bucket(len(c.Ins)) + ",outs=" + bucket(len(c.Outs)))
 	shared := c.real()
+	txh := vlib.ShortHash([]byte(c.oracleLine()))
 	fresh := make([]string, len(c.Calls))
 	for n := range c.Calls {
 		k := &c.Calls[n]
@@ -287,7 +290,7 @@ func runCase(c *Case) {
 		inRange := k.Idx >= 0 && k.Idx < len(c.Ins) && (k.Kind != "tap" || len(c.Spent) == len(c.Ins))
 		dk := ""
 		if inRange {
-			dk = fmt.Sprintf("%s/%d/%x/%s", k.Kind, k.Idx, k.Ht, vlib.ShortHash([]byte(c.oracleLine()+k.Sc+k.Leaf)))
+			dk = fmt.Sprintf("%s/%d/%x/%s", k.Kind, k.Idx, k.Ht, vlib.ShortHash([]byte(txh+k.Sc+k.Leaf)))
 		}
 		class := k.Kind
 		if !inRange {
@@ -303,7 +306,10 @@ func runCase(c *Case) {
 			r.PropFail("digest-"+k.Kind, fmt.Sprintf("%s digest for input %d, hash type 0x%x is %s, the specification gives %s", k.Kind, k.Idx, k.Ht, got, want), one)
 		}
 		// (1b) no digest defined: the signature check must fail
-		if !defined && inRange && k.Kind == "tap" {
+		if !defined && inRange && k.Kind == "tap" && (got != "nil" || nilChecked < 60) {
+			if got == "nil" {
+				nilChecked++
+			}
 			if acc, used := schnorrAccepts(c, k); acc {
 				r.PropFail("taproot-undefined-digest-accepted", fmt.Sprintf("BIP341 defines no digest for hash type 0x%02x / input %d of %d outputs, yet CheckSchnorrSignature accepts a signature over %s", k.Ht, k.Idx, len(c.Outs), used), one)
 			}
@@ -356,6 +362,20 @@ func runCase(c *Case) {
 			}
 		}
 	}
+}
+
+func bucket(n int) string {
+	switch {
+	case n == 0:
+		return "0"
+	case n == 1:
+		return "1"
+	case n < 252:
+		return "2..251"
+	case n == 252:
+		return "252"
+	}
+	return ">=253"
 }
 
 func resClass(s string) string {
@@ -459,12 +479,12 @@ func main() {
 		specCheck(&c)
 	}
 	// 2. random end-to-end spends
-	for i := 0; i < r.N(60, 1500); i++ {
+	for i := 0; i < r.N(200, 4000); i++ {
 		e := genE2E(g)
 		runE2E(e)
 	}
 	// 3. random transactions, hash-type sweeps on one object (cache threaded on both sides)
-	ntx := r.N(40, 700)
+	ntx := r.N(120, 900)
 	for i := 0; i < ntx; i++ {
 		c := genCase(g, r.Thorough(), i)
 		runCase(c)
@@ -480,7 +500,7 @@ func main() {
 		}
 	}
 	// 4. call-order permutations and parallel callers on one object
-	for i := 0; i < r.N(40, 600); i++ {
+	for i := 0; i < r.N(100, 2000); i++ {
 		c := genCacheCase(g)
 		runCase(c)
 	}
